@@ -77,7 +77,7 @@ def detect(i, checks):
     try:
         for c in ids:
             t0 = time.time()
-            r = sh(f"{HERE}/check {c} quick")
+            r = sh(f"{HERE}/check {c} quick", env=dict(os.environ, VERIF_EVIDENCE_DIR=os.path.join(HERE, "scratch", "evidence-of-broken-trees")))
             lines = [l for l in r.stdout.splitlines() if l.startswith(("VIOLATION", "MACHINERY", "  what", "KNOWN"))]
             det[c] = {"exit": r.returncode, "violation": r.returncode == 1, "first": (lines[1] if len(lines) > 1 else (lines[0] if lines else ""))[:400], "wall_s": round(time.time() - t0, 1)}
             print(i, c, "exit", r.returncode, det[c]["first"][:200], flush=True)
@@ -109,7 +109,7 @@ def keep(i, prop, needs):
 
 def matrix(repo):
     """applies every kept patch to the repository copy `repo`, runs ALL quick checks, records who reports"""
-    env = dict(os.environ)
+    env = dict(os.environ, VERIF_EVIDENCE_DIR=os.path.join(HERE, "scratch", "evidence-of-broken-trees"))
     if repo != "/repo":
         ct = os.path.join(HERE, "mc", "Cargo.toml")
         t = open(ct).read().replace('path = "/repo/kiki"', f'path = "{repo}/kiki"')
